@@ -29,7 +29,7 @@ var (
 	graph    = cc().add(alnum).add(punct)
 	print    = cc().addChars(" ").add(graph)
 	xdigit   = cc().addChars("0123456789abcdefABCDEF")
-	space    = cc().addChars(" \t\r\n")
+	space    = cc().addChars(" \t\n\v\f\r") // as documented: [\x09-\x0d\x20]
 	notSpace = cc().add(space).negate()
 	cntrl    = cc().addRange('\u0000', '\u001f').addRange('\u007f', '\u009f')
 )
